@@ -122,3 +122,14 @@ chk('C19', 'fault_enumeration',
     'tracemalloc peak bound on every 4th case.',
     'Logical-step and tracemalloc budgets calibrated on the seeds; BytesIO inputs; any exception may end a battery step.',
     'fault injection (byte/field/truncation enumeration) + exception classifier + logical step meter + allocation meter', 'DESIGN.md section 4 C19')
+chk('C10', 'model_checking',
+    'History + executable model, the model of a query being the same query on a freshly opened object. (a) Bounded-exhaustive '
+    'breadth-first search over sequences of a 35-55 operation alphabet on small generated DWARF sets with deduplication on the abstract '
+    'cache state (states restored by replaying the shortest path on a fresh object; replay determinism checked): every operation applied '
+    'to every distinct state up to the bound; the tiny files close their frontier. (b) Random histories of 60-400 operations on corpus '
+    'binaries and generated files at the DWARF and the ELF level. Streams are repositioned before every operation; cache invariants '
+    '(sorted, duplicate-free, parallel unit/entry caches; cached parent/terminator links vs ground truth; section-name map) are asserted '
+    'after every operation.',
+    'Abstract state = hash of private cache attributes (read only); exhaustive only over abstract states within the depth/state bound.',
+    'history checker against a fresh-object model: bounded BFS with abstract-state deduplication + random histories + cache invariants at hooks + stream poisoning',
+    'DESIGN.md section 4 C10')
